@@ -16,12 +16,17 @@
    as the serial [Aser]/[Pser] act on the assembled vector.
 
    TRUSTED, NOT PROVED: the MPI runtime realises the collective model (progress, no
-   deadlock, arrival order); the distributed preconditioners of amgcl (AMG with PMIS
-   aggregation, repartitioning, consolidated coarse solve; block relaxations) are NOT
-   modelled -- they enter as [Pw] with the assumption HP, and are covered by the oracle
-   runs of bin/check C12 only.  Other Krylov methods: rank-consistency oracle only. *)
+   deadlock, arrival order); the distributed preconditioners of amgcl (smoothing of P,
+   repartitioning, consolidated coarse solve; block relaxations) are NOT modelled -- they
+   enter as [Pw] with the assumption HP, and are covered by the oracle runs of bin/check C12
+   only.  Other Krylov methods: rank-consistency oracle only.
+
+   C12-B (end of this file): the distributed PMIS aggregation of mpi/coarsening/pmis.hpp
+   (block_size 1, no near-null space) IS modelled (Pmis.v: a global round-based state machine
+   over the world of ranks, tied exactly to the implementation by bin/check C12): termination
+   within the fuel and the partition invariant across rank boundaries are proved. *)
 From Amgcl Require Import Scalar QcInst Vec Crs Kernels KernelsProofs MatOps Dist DistProofs Krylov KrylovProofs
-                          DistSolve DistSolveProofs DistSolveTruth.
+                          DistSolve DistSolveProofs DistSolveTruth Pmis PmisProofs PmisPartition.
 From Coq Require Import QArith_base Qcanon.
 Local Close Scope Q_scope.
 Local Close Scope Qc_scope.
@@ -178,3 +183,72 @@ Example C12_nonvacuous :
   | _, _ => False
   end.
 Proof. vm_compute. repeat split; reflexivity. Qed.
+
+
+(* ====================================================================================================
+   C12-B: the distributed PMIS aggregation (amgcl/mpi/coarsening/pmis.hpp, aggregates(), block_size = 1).
+
+   Model (Pmis.v): the world state is one list indexed by the global unknown (what the owner holds in
+   loc_state/loc_owner); in a round every rank sweeps over its own unknowns -- it reads the other ranks' unknowns
+   as they were at the beginning of the round (rem_state after Sp.exchange) plus its own claims of this round --,
+   selects roots (an undecided boundary unknown is selectable when no undecided S-neighbour lives on a HIGHER
+   rank: the priority is the rank number, there are no random weights), claims neighbours, and the claims of
+   remote unknowns are delivered in the order of the neighbour lists; rounds are repeated until the Allreduce of
+   the undecided counts is 0; then ids without members are dropped and the rest renumbered (ranks see their own
+   unknowns and their S-ghosts).  [parts] = list of the ranks' sizes (zeros allowed), [G] = the strength pattern
+   (rows of global columns, Pmis.conn computes it from the matrix).  All statements hold for EVERY rank count and
+   EVERY contiguous partition, structurally symmetric or not.
+   Trusted: the MPI runtime delivers the point-to-point messages completely and in neighbour-list order. *)
+
+(* every round decides at least one undecided unknown (the last undecided unknown of the world is on the highest
+   rank that still has one, so it is selectable or already taken when its rank's sweep reaches it) *)
+Theorem C12_pmis_round_progress (parts : list nat) (G : list (list nat)) (w : Pmis.world) :
+  length (w_st w) = psum parts -> any_undone (w_st w) = true ->
+  count_undone (w_st (round parts G w)) < count_undone (w_st w).
+Proof. exact (round_progress parts G w). Qed.
+
+(* termination within the fuel (number of initially undecided unknowns + 1 for the do-while), for every world;
+   nothing decided becomes undecided or deleted again *)
+Theorem C12_pmis_terminates (parts : list nat) (G : list (list nat)) :
+  exists w, rounds parts G (pmis_fuel parts G) (init_world parts G) = Some w /\
+            any_undone (w_st w) = false /\ mono (init_state parts G) (w_st w).
+Proof. exact (pmis_rounds_terminate parts G). Qed.
+
+(* the partition invariant across rank boundaries: with the diagonal in every strength row (conn_strength keeps
+   c == i), the aggregation returns a world in which every unknown is either left out or in exactly one aggregate
+   (id below its owner rank's count), every unknown with a strong connection ("not lonely": more than the diagonal
+   in its row of the strength matrix / squared interface) is aggregated, and no aggregate is empty: the ids of every
+   rank are exactly 0..naggr-1 *)
+Theorem C12_pmis_partition (parts : list nat) (G : list (list nat)) :
+  (forall i, i < psum parts -> In i (grow G i)) ->
+  exists w, pmis parts G = Some w /\
+    (forall c, c < psum parts ->
+       getn (w_st w) c = mkNode Deleted None \/
+       exists o id, getn (w_st w) c = mkNode (Agg id) (Some o) /\ o < length parts /\ id < nth o (w_na w) 0) /\
+    (forall c, c < psum parts -> lonely parts G c = false -> exists o id, getn (w_st w) c = mkNode (Agg id) (Some o)) /\
+    (forall o id, o < length parts -> id < nth o (w_na w) 0 ->
+       exists c, c < psum parts /\ getn (w_st w) c = mkNode (Agg id) (Some o)).
+Proof. exact (pmis_partition parts G). Qed.
+
+(* the same for the columns of the tentative prolongation (column = id + exclusive_sum(naggr)[owner], what the tie
+   compares with P_tent): global numbering without gaps, every coarse column hit, every non-lonely unknown has one *)
+Theorem C12_pmis_columns_partition (parts : list nat) (G : list (list nat)) :
+  (forall i, i < psum parts -> In i (grow G i)) ->
+  exists cols nas, pmis_columns parts G = Some (cols, nas) /\ length cols = psum parts /\ length nas = length parts /\
+    (forall c j, c < psum parts -> nth c cols None = Some j -> j < psum nas) /\
+    (forall j, j < psum nas -> exists c, c < psum parts /\ nth c cols None = Some j) /\
+    (forall c, c < psum parts -> lonely parts G c = false -> nth c cols None <> None).
+Proof. exact (pmis_columns_partition parts G). Qed.
+
+(* rank-count independence does NOT hold (the property allows that): the same graph is aggregated differently under
+   different partitions -- path 0-1-2-3: one rank {0,1} {2,3}; ranks [2;2]: {0,1,2,3} *)
+Theorem C12_pmis_depends_on_partition :
+  pmis_columns [4] ex_path4 = Some ([Some 0; Some 0; Some 1; Some 1], [2]) /\
+  pmis_columns [2; 2] ex_path4 = Some ([Some 0; Some 0; Some 0; Some 0], [0; 1]) /\
+  pmis_columns [1; 1; 1; 1] ex_path4 = Some ([Some 0; Some 0; Some 1; Some 1], [1; 0; 0; 1]).
+Proof. exact pmis_depends_on_partition. Qed.
+Print Assumptions C12_pmis_round_progress.
+Print Assumptions C12_pmis_terminates.
+Print Assumptions C12_pmis_partition.
+Print Assumptions C12_pmis_columns_partition.
+Print Assumptions C12_pmis_depends_on_partition.
